@@ -29,13 +29,19 @@ def _appends(fn_node):
     return out
 
 
-def check(prog, run):
+def declare_extraction_rules(run, first_order=True, handover_min=30):
     run.rule("R-own-freq", "closeness test: isclose(pole at (row, col), the loop's own requested frequency, rtol=rtol)", 4)
     run.rule("R-same-pole", "all values appended for one mode come from (row, col) with col = requested order and row = nanargmin|Fn[:, col] - f|", 20)
     run.rule("R-guarded-append", "appends are dominated by the success branch of the closeness test", 4)
     run.rule("R-slots", "returned Fn/Xi/Phi(/covariances) are built from the lists fed by the table of the same kind", 6)
-    run.rule("R-first-order", "SSI_mpe find_min: ascending scan over all columns, values taken at the first qualifying column, that column reported, loop left", 5)
-    run.rule("R-handover", "mpe / mpe_from_plot pass result.{Fn,Xi,Phi}_poles, Lab, covariances under the matching parameter and store returns in the matching fields", 30)
+    if first_order:
+        run.rule("R-first-order", "SSI_mpe find_min: ascending scan over all columns, values taken at the first qualifying column, that column reported, loop left", 5)
+    if handover_min is not None:
+        run.rule("R-handover", "mpe / mpe_from_plot pass result.{Fn,Xi,Phi}_poles, Lab, covariances under the matching parameter and store returns in the matching fields", handover_min)
+
+
+def extraction(prog, run, first_order=True, with_handover=True, only_methods=None):
+    """the rules of the explicit-order extraction (shared with C01 and C16, for which it is a necessary condition)"""
     for qual, has_cov in TARGETS:
         fi = prog.func(qual)
         f = rel(prog.mods[fi.mod].path)
@@ -47,16 +53,21 @@ def check(prog, run):
                 if p.endswith("_cov"):
                     kinds[p] = p
         tables = set(kinds)
-        consts_base = {}
         for label, oval in ORDERS.items():
             cfg = f"order={label}"
             consts = {p_order: oval}
             pf = astq.PrunedFn(fi, consts)
             pm = astq.parent_map(pf.node)
             explicit_branch(prog, run, fi, pf, pm, f, cfg, label, p_freq, p_order, tF, kinds, tables, has_cov)
-        if qual.endswith("SSI_mpe"):
+        if qual.endswith("SSI_mpe") and first_order:
             find_min(prog, run, fi, f, p_freq, p_order, tF, kinds, tables)
-    handover(prog, run)
+    if with_handover:
+        handover(prog, run, only_methods)
+
+
+def check(prog, run):
+    declare_extraction_rules(run)
+    extraction(prog, run)
 
 
 def _row_is_nearest(prog, pf, row, tF, col, freqvar, tables):
@@ -211,6 +222,20 @@ def slots(prog, run, fi, pf, f, cfg, seen_tables, kinds):
             run.ob("R-slots", fi.qual, f"return[{k}] ({want[k]})", ok, f"built from values of {sorted(got)}", ",".join(sorted(got)), file=f, node=r, config=cfg)
 
 
+def blocks_up_from(pm, node, stop):
+    """(parent, statement list, index) for every statement list between `node` and the loop `stop`"""
+    cur = node
+    while cur is not stop:
+        par = pm.get(cur)
+        if par is None:
+            return
+        for field in ("body", "orelse", "finalbody"):
+            lst = getattr(par, field, None)
+            if isinstance(lst, list) and cur in lst:
+                yield par, lst, lst.index(cur)
+        cur = par
+
+
 def find_min(prog, run, fi, f, p_freq, p_order, tF, kinds, tables):
     cfg = "order=find_min"
     pf = astq.PrunedFn(fi, {p_order: "find_min"})
@@ -245,6 +270,34 @@ def find_min(prog, run, fi, f, p_freq, p_order, tF, kinds, tables):
     run.ob("R-first-order", fi.qual, "every returned value is read at the scanned column", okc, "; ".join(repr(acc) for a, acc in items)[:200], "col", file=f, node=scan, config=cfg)
     rows = {astq.dump(acc.row) for a, acc in items if acc.row is not None}
     run.ob("R-first-order", fi.qual, "one row index for all values of a mode", len(rows) == 1, f"{len(rows)} distinct row expressions", str(len(rows)), file=f, node=scan, config=cfg)
+    # the qualifying test: EVERY requested frequency has its pole at this order (count equal, all close) - not just some of them
+    conds = []
+    for par, lst, k in list(blocks_up_from(pm, a0, scan)):
+        if isinstance(par, ast.If) and lst is par.body:
+            conds.append((par.test, True))
+        for prev in lst[:k]:
+            if isinstance(prev, ast.If) and prev.body and isinstance(prev.body[-1], (ast.Continue, ast.Break)) and not prev.orelse:
+                conds.append((prev.test, False))      # guard-and-continue: the appends run when the test is FALSE
+    texts = []
+    allq = anyq = lenq = False
+    for t_, pol in conds:
+        x_ = astq.expr_at(pf, t_, t_)
+        for c_ in ast.walk(x_):
+            if isinstance(c_, ast.Call):
+                nm_ = astq.callee_name(prog, pf, c_)
+                if nm_ == "numpy.allclose" or (nm_ == ".all" and any(isinstance(z, ast.Call) and astq.callee_name(prog, pf, z) == "numpy.isclose" for z in ast.walk(c_))):
+                    allq = True
+                if nm_ in (".any", "numpy.any") and any(isinstance(z, ast.Call) and astq.callee_name(prog, pf, z) == "numpy.isclose" for z in ast.walk(c_)):
+                    anyq = True
+            if isinstance(c_, ast.Compare) and len(c_.ops) == 1 and isinstance(c_.ops[0], (ast.Eq, ast.NotEq)) and all(isinstance(z, ast.Call) and astq.callee_name(prog, pf, z) == "len" for z in (c_.left, c_.comparators[0])):
+                lenq = True
+        texts.append(astq.src(x_, 90))
+    okq = None
+    if conds:
+        okq = False if (anyq and not allq) else (True if (allq and lenq) else None)
+    run.ob("R-first-order", fi.qual, "an order qualifies only if EVERY requested frequency has its stable pole there (equal count, all close)", okq,
+           f"qualifying test(s): {texts}" + (" - `.any()` accepts an order where only some requested modes are present" if okq is False else ""),
+           "qualify", file=f, node=scan, config=cfg)
     # after the values of the qualifying column are appended the scan must be left (break on the same path) and that column reported:
     # walk from the append up to the scan loop; in one of the enclosing statement lists a `break` (and `order_out = <scan variable>`)
     # must follow the statement that contains the append
@@ -300,8 +353,10 @@ ARG_FIELDS = {"Fn_pol": "Fn_poles", "Xi_pol": "Xi_poles", "Phi_pol": "Phi_poles"
               "Fn_cov": "Fn_poles_cov", "Xi_cov": "Xi_poles_cov", "Phi_cov": "Phi_poles_cov"}
 
 
-def handover(prog, run):
+def handover(prog, run, only_methods=None):
     for cq, mname, callee_q, has_cov in HANDOVER:
+        if only_methods is not None and mname not in only_methods:
+            continue
         ci = prog.cls(cq)
         m = prog.find_method(ci, mname)
         callee = prog.func(callee_q)
